@@ -3,7 +3,7 @@
    harness code, tied by the `validate` correspondence on generated definitions and every catalogue fault).
    The textual parsing of version numbers is not modelled: versions are release-number lists with an optional
    pre-release tag, the subset  N(.N)*((a|b|rc)N)?  of PEP 440. *)
-From BA Require Import Base Expr Subst Layout Match Config ConfigProofs.
+From BA Require Import Base Expr Subst Layout LayoutProofs Match Config ConfigProofs.
 
 (* accepted iff well-formed: sections, keywords, macro/instruction clash, declared operand sets and registers, operand
    counts, ranges, memory zones, version gate *)
@@ -51,3 +51,9 @@ Theorem C19_require_comparisons : forall op a b,
                      end.
 Proof. exact req_holds_spec. Qed.
 Print Assumptions C19_require_comparisons.
+
+(* a memory zone that is created lies inside the address space at both ends (D46: also at the lower end) *)
+Theorem C19_zone_inside_address_space : forall bits s e n z,
+  mk_zone bits s e n = Ok z -> 0 <= z_start z /\ z_end z <= 2 ^ bits - 1.
+Proof. exact mk_zone_inside_space. Qed.
+Print Assumptions C19_zone_inside_address_space.
